@@ -409,8 +409,19 @@ def rule_body_shape(src, failures):
     for st in ast.walk(fn):
         if isinstance(st, ast.Assign) and len(st.targets) == 1 and is_col(st.targets[0]):
             a.expr(st.value)
-        if isinstance(st, (ast.If, ast.While)) and mentions_df(st.test) and _u(st.test) != 'data is None':
-            probs.append(f'data-dependent control flow: `{_u(st.test)[:120]}`')
+        if isinstance(st, (ast.If, ast.While)) and mentions_df(st.test):
+            # `data is None` / `data is not None` ask whether a frame was handed in, not what its rows hold: they may be combined
+            # with tests that do not mention the data
+            class _DropIsNone(ast.NodeTransformer):
+                def visit_Compare(self, c):
+                    if len(c.ops) == 1 and isinstance(c.ops[0], (ast.Is, ast.IsNot)) and is_df(c.left) \
+                            and isinstance(c.comparators[0], ast.Constant) and c.comparators[0].value is None:
+                        return ast.Constant(value=True)
+                    return c
+            import copy
+            rest = _DropIsNone().visit(copy.deepcopy(st.test))
+            if mentions_df(rest):
+                probs.append(f'data-dependent control flow: `{_u(st.test)[:120]}`')
     probs += a.problems
     sh['rowPreserving'] = not probs
     failures.extend('_materialize_rml_rule: ' + p for p in probs)
